@@ -15,6 +15,9 @@ Components
   batch      the REAL loop of `_run_agents_parallel_batch` (compute/apply stubbed through the
              orchestrator's own override hooks) vs the same model.
   rotmain    `rotate_logs.main`: size threshold (>= --max-bytes) decides; final state vs `LogRotate.rotateOne`.
+             Entry points: packaged main, the scripts/ shim, the `clematis rotate-logs` CLI main, and --dry-run (printed plan ==
+             model step list, nothing touched).  All rotation streams draw their worlds from `gen_rotation_world`: backups and
+             pre-existing generation counts sweep the suffix-width boundaries 9/10/11/12.. and 99/100/101 (gaps, above-cap files).
   rotfault   `rotate_one` when ONE rename fails transiently (each documented retryable error, once/twice) or for good:
              exact vs `rotateOne` / `failState`, Lean monitors on what is left behind.
   rotate     exact: real `rotate_one` on real files, a crash injected between every pair of
@@ -1499,39 +1502,82 @@ def run_rotation(gens: Dict[int, int], backups: int, crash_after: Optional[int],
     return {"steps": steps, "ret": ret, "crashed": crashed, "state": state, "stray": stray + beyond, "intact": intact}
 
 
+#: decimal-width boundaries of the generation suffix (`path.9` / `path.10`, `path.99` / `path.100`): every rotation
+#: stream sweeps backups and pre-existing generation counts across them (a listing-based or string-keyed ordering of
+#: the generations agrees with the numeric one only below them).
+ROT_WIDE_BACKUPS = [9, 10, 11, 11, 12, 12, 13, 15, 20]
+ROT_HUGE_BACKUPS = [99, 100, 101, 110]
+
+
+def gen_rotation_world(rng: random.Random, backups: int, want_main: Optional[float] = None) -> Tuple[List[int], int]:
+    """Generation indices present before a rotation with the given `backups`, and the window top `hi`.
+    Modes: a long-lived log (contiguous 0..m, m biased to 8..12 / backups-1..backups+2), gaps, files only above
+    the cap, no live file, empty, live file only.  Indices range over 0..backups+2 (above-cap files included)."""
+    top = max(backups, 1) + 2
+    idxs = list(range(top + 1))
+    mode = rng.choice(["full", "full", "gaps", "gaps", "nomain", "empty", "only_main", "dense_gaps", "above_cap"])
+    if mode == "full":
+        bias = [m for m in (8, 9, 10, 11, 12, 98, 99, 100, 101, backups - 2, backups - 1, backups, backups + 1, backups + 2)
+                if 0 <= m <= top]
+        m = rng.choice(bias) if (bias and rng.random() < 0.7) else rng.randrange(0, top + 1)
+        sel = idxs[: m + 1]
+    elif mode == "gaps":
+        sel = [k for k in idxs if rng.random() < 0.6]
+    elif mode == "dense_gaps":
+        holes = set(rng.sample(idxs, min(len(idxs), rng.choice([1, 1, 2, 3]))))
+        sel = [k for k in idxs if k not in holes]
+    elif mode == "nomain":
+        sel = [k for k in idxs[1:] if rng.random() < 0.7]
+    elif mode == "above_cap":
+        sel = [k for k in idxs if k > backups or k == 0 or rng.random() < 0.3]
+    elif mode == "empty":
+        sel = []
+    else:
+        sel = [0]
+    if want_main is not None and 0 not in sel and rng.random() < want_main:
+        sel = [0] + sel
+    return sorted(sel), top + 1
+
+
 class RotateComp(FrozenComp):
     name = "rotate"
     budget = {"quick": 500, "thorough": 6000, "search": 1500}
 
     def gen_(self, rng: random.Random, i: int) -> dict:
-        backups = rng.choice([1, 1, 2, 2, 3, 3, 4, 5, 0, -1, 7])
-        top = max(backups, 1) + 2
-        mode = rng.choice(["full", "gaps", "gaps", "nomain", "empty", "only_main"])
-        idxs = list(range(top + 1))
-        if mode == "full":
-            sel = idxs[: rng.randrange(1, top + 2)]
-        elif mode == "gaps":
-            sel = [k for k in idxs if rng.random() < 0.6]
-        elif mode == "nomain":
-            sel = [k for k in idxs[1:] if rng.random() < 0.7]
-        elif mode == "empty":
-            sel = []
+        r = rng.random()
+        if r < 0.8:
+            backups = rng.choice([1, 1, 2, 2, 3, 3, 4, 5, 0, -1, 7])
+        elif r < 0.97:
+            backups = rng.choice(ROT_WIDE_BACKUPS)
         else:
-            sel = [0]
-        return {"backups": backups, "gens": [[k, 100 + k] for k in sel], "hi": top + 1}
+            backups = rng.choice(ROT_HUGE_BACKUPS)
+        sel, hi = gen_rotation_world(rng, backups)
+        case = {"backups": backups, "gens": [[k, 100 + k] for k in sel], "hi": hi}
+        if backups >= 9 and (backups > 20 or rng.random() < 0.75):
+            # crash injection at EVERY point is quadratic in the number of generations: sample the crash points
+            n = len(sel) + 1
+            case["crash_js"] = sorted({rng.randrange(n), rng.randrange(n), rng.randrange(n), max(0, n - 2)})
+        return case
 
     def impl_(self, case: dict) -> Any:
         gens = {k: c for k, c in case["gens"]}
         full = run_rotation(gens, case["backups"], None, case["hi"])
         states = []
         extras = {"stray": list(full["stray"]), "intact": full["intact"], "prefix_ok": True}
-        for j in range(len(full["steps"]) + 1):
+        for j in self._crash_points(case, len(full["steps"])):
             r = run_rotation(gens, case["backups"], j, case["hi"])
             states.append(r["state"])
             extras["stray"] += r["stray"]
             extras["intact"] = extras["intact"] and r["intact"]
             extras["prefix_ok"] = extras["prefix_ok"] and r["steps"] == full["steps"][:j]
         return {"steps": full["steps"], "rotated": full["ret"], "states": states, "extras": extras}
+
+    @staticmethod
+    def _crash_points(case: dict, nsteps: int) -> List[int]:
+        """crash after j primitive steps: every j (default) or the sampled `crash_js` plus the completed run."""
+        if "crash_js" not in case:
+            return list(range(nsteps + 1))
+        return sorted({j for j in case["crash_js"] if j < nsteps} | {nsteps})
 
     def request_(self, case: dict) -> dict:
         return {"c": "c16.rotate", "gens": case["gens"], "backups": case["backups"], "hi": case["hi"]}
@@ -1542,7 +1588,10 @@ class RotateComp(FrozenComp):
         if "__raised__" in impl_out:
             return f"implementation raised {impl_out}"
         io = {k: impl_out[k] for k in ("steps", "rotated", "states")}
-        return Component.compare(self, case, io, {k: model_out.get(k) for k in ("steps", "rotated", "states")})
+        mo = {k: model_out.get(k) for k in ("steps", "rotated", "states")}
+        if "crash_js" in case and isinstance(mo["states"], list) and mo["steps"] == io["steps"]:
+            mo["states"] = [mo["states"][j] for j in self._crash_points(case, len(io["steps"]))]
+        return Component.compare(self, case, io, mo)
 
     def monitor_requests_(self, case, impl_out):
         rq = []
@@ -1584,11 +1633,48 @@ class RotateComp(FrozenComp):
                 t.add("oldest_dropped")
             if any(k > case["backups"] for k in ks):
                 t.add("beyond_n")
+            t |= set(_width_tags(case["backups"], ks))
         return sorted(t) or ["default"]
 
     def shrink_(self, case):
         for i in range(len(case["gens"])):
             yield dict(case, gens=case["gens"][:i] + case["gens"][i + 1:])
+
+
+def _width_tags(backups: int, ks: List[int]) -> List[str]:
+    """evidence tags: did the rotation move generations across a decimal-width boundary of the suffix?"""
+    t = []
+    if backups >= 10:
+        t.append("backups_ge_10")
+    if backups >= 100:
+        t.append("backups_ge_100")
+    if backups >= 11 and 9 in ks and 10 in ks:
+        t.append("shift_9_10_11")
+    if backups >= 101 and 99 in ks and 100 in ks:
+        t.append("shift_99_100_101")
+    return t
+
+
+_SHIM_MOD: List[Any] = []
+
+
+def _rotate_shim():
+    """the repo-root `scripts/rotate_logs.py` shim, loaded from $CLEMATIS3_REPO by file path (not a package)."""
+    if not _SHIM_MOD:
+        import importlib.util
+        sdir = str(REPO / "scripts")
+        sys.path.insert(0, sdir)
+        try:
+            spec = importlib.util.spec_from_file_location("_c16_rotate_logs_shim", str(REPO / "scripts" / "rotate_logs.py"))
+            mod = importlib.util.module_from_spec(spec)
+            spec.loader.exec_module(mod)
+        finally:
+            try:
+                sys.path.remove(sdir)
+            except ValueError:
+                pass
+        _SHIM_MOD.append(mod)
+    return _SHIM_MOD[0]
 
 
 class RotateMainComp(FrozenComp):
@@ -1598,14 +1684,21 @@ class RotateMainComp(FrozenComp):
     budget = {"quick": 200, "thorough": 2000, "search": 600}
 
     def gen_(self, rng: random.Random, i: int) -> dict:
-        backups = rng.choice([1, 2, 3, 5])
-        top = backups + 2
-        sel = [k for k in range(top + 1) if rng.random() < 0.65]
-        if rng.random() < 0.85 and 0 not in sel:
-            sel = [0] + sel
+        r = rng.random()
+        if r < 0.6:
+            backups = rng.choice([1, 2, 3, 5])
+        elif r < 0.95:
+            backups = rng.choice(ROT_WIDE_BACKUPS)
+        else:
+            backups = rng.choice(ROT_HUGE_BACKUPS)
+        sel, hi = gen_rotation_world(rng, backups, want_main=0.85)
         size = rng.choice([7, 8, 20, 100])
         mb = rng.choice([size - 1, size, size + 1, 1, 10 ** 7])
-        return {"backups": backups, "gens": [[k, 100 + k] for k in sel], "hi": top + 1, "size": size, "max_bytes": mb}
+        #: entry point: the packaged main, the repo-root scripts/ shim, `python -m clematis rotate-logs` (its in-process
+        #: main), and the packaged main with --dry-run (prints the plan, must touch nothing)
+        entry = rng.choice(["main", "main", "shim", "cli", "dry"])
+        return {"backups": backups, "gens": [[k, 100 + k] for k in sel], "hi": hi, "size": size, "max_bytes": mb,
+                "entry": entry}
 
     def impl_(self, case: dict) -> Any:
         from clematis.scripts import rotate_logs as RL
@@ -1623,9 +1716,31 @@ class RotateMainComp(FrozenComp):
             (d / "small.jsonl").write_text("s\n", encoding="utf-8")
             real_size = base.stat().st_size if base.exists() else None
             buf = io.StringIO()
-            with contextlib.redirect_stderr(buf), contextlib.redirect_stdout(buf):
-                rc = RL.main(["--dir", str(d), "--pattern", "*.jsonl", "--max-bytes", str(case["max_bytes"]),
-                              "--backups", str(case["backups"])])
+            entry = case.get("entry", "main")
+            argv = ["--dir", str(d), "--pattern", "*.jsonl", "--max-bytes", str(case["max_bytes"]),
+                    "--backups", str(case["backups"])]
+            err = io.StringIO()
+            with contextlib.redirect_stderr(err), contextlib.redirect_stdout(buf):
+                if entry == "shim":
+                    rc = _rotate_shim().main(argv)
+                elif entry == "cli":
+                    from clematis.cli.main import main as cli_main
+                    try:
+                        rc = cli_main(["rotate-logs"] + argv)
+                    except SystemExit as e:
+                        rc = int(e.code or 0)
+                elif entry == "dry":
+                    rc = RL.main(argv + ["--dry-run"])
+                else:
+                    rc = RL.main(argv)
+            plan: List[list] = []
+            for line in buf.getvalue().split("\n"):
+                w = line.split(" ")
+                if w[0] == "rm" and len(w) == 2 and _gen_index(str(base), w[1]) is not None:
+                    plan.append(["rm", _gen_index(str(base), w[1])])
+                elif w[0] == "mv" and len(w) == 3 and _gen_index(str(base), w[1]) is not None:
+                    j = _gen_index(str(base), w[2])
+                    plan.append(["mv", _gen_index(str(base), w[1]), -1 if j is None else j])
             state = []
             for k in range(case["hi"] + 1):
                 p = base if k == 0 else Path(f"{base}.{k}")
@@ -1637,10 +1752,13 @@ class RotateMainComp(FrozenComp):
             small = sorted(x.name for x in d.iterdir() if x.name.startswith("small"))
         finally:
             shutil.rmtree(d, ignore_errors=True)
-        return {"rc": rc, "state": state, "size": real_size, "small": small}
+        return {"rc": rc, "state": state, "size": real_size, "small": small, "plan": plan}
+
+    def _over(self, case, impl_out) -> bool:
+        return impl_out.get("size") is not None and impl_out["size"] >= case["max_bytes"]
 
     def _rotates(self, case, impl_out) -> bool:
-        return impl_out.get("size") is not None and impl_out["size"] >= case["max_bytes"]
+        return self._over(case, impl_out) and case.get("entry") != "dry"
 
     def request_(self, case: dict) -> dict:
         return {"c": "c16.rotate", "gens": case["gens"], "backups": case["backups"], "hi": case["hi"]}
@@ -1652,14 +1770,21 @@ class RotateMainComp(FrozenComp):
             return f"implementation raised {impl_out}"
         exp = model_out["states"][-1] if self._rotates(case, impl_out) else model_out["states"][0]
         if impl_out["state"] != exp:
-            return f"final state impl={impl_out['state']} model={exp} (size={impl_out['size']} max_bytes={case['max_bytes']})"
+            return (f"final state via {case.get('entry', 'main')} impl={impl_out['state']} model={exp} "
+                    f"(size={impl_out['size']} max_bytes={case['max_bytes']})")
+        if case.get("entry") == "dry":
+            # the printed plan is the step list of the real rotation (an existence test never depends on an earlier step)
+            want = model_out["steps"] if self._over(case, impl_out) else []
+            if impl_out["plan"] != want:
+                return f"--dry-run plan impl={impl_out['plan']} model steps={want}"
         return None
 
     def monitors_(self, case, impl_out):
         gens = {k: c for k, c in case["gens"]}
         before = [gens.get(k) for k in range(case["hi"] + 1)]
+        moved = 2 >= case["max_bytes"] and case.get("entry") != "dry"
         res = [("main_exit_code_0", impl_out["rc"] == 0, f"rc={impl_out['rc']}"),
-               ("main_size_threshold_per_file", impl_out["small"] == (["small.jsonl.1"] if 2 >= case["max_bytes"] else ["small.jsonl"]),
+               ("main_size_threshold_per_file", impl_out["small"] == (["small.jsonl.1"] if moved else ["small.jsonl"]),
                 f"2-byte file with max_bytes={case['max_bytes']}: {impl_out['small']}")]
         if self._rotates(case, impl_out):
             b = case["backups"]
@@ -1679,6 +1804,9 @@ class RotateMainComp(FrozenComp):
             t.add("above")
         else:
             t.add("below")
+        t.add("entry_" + case.get("entry", "main"))
+        if self._over(case, impl_out):
+            t |= set(_width_tags(case["backups"], [k for k, _ in case["gens"]]))
         return sorted(t)
 
     def shrink_(self, case):
@@ -1782,14 +1910,12 @@ class RotateFaultComp(FrozenComp):
     PERSISTENT = ["EBUSY", "EIO", "ENOSPC", "EACCES", "PermissionError"]
 
     def gen_(self, rng: random.Random, i: int) -> dict:
-        backups = rng.choice([1, 2, 2, 3, 3, 4, 5])
-        top = backups + 2
-        sel = [k for k in range(top + 1) if rng.random() < 0.7]
-        if rng.random() < 0.8 and 0 not in sel:
-            sel = [0] + sel
+        backups = rng.choice([1, 2, 2, 3, 3, 4, 5]) if rng.random() < 0.7 else rng.choice(ROT_WIDE_BACKUPS)
+        sel, hi = gen_rotation_world(rng, backups, want_main=0.8)
+        top = hi - 1
         persistent = rng.random() < 0.25
         return {"backups": backups, "gens": [[k, 100 + k] for k in sorted(sel)], "hi": top + 1,
-                "mv_pick": rng.randrange(6), "count": None if persistent else rng.choice([1, 1, 2]),
+                "mv_pick": rng.randrange(6 if backups < 6 else 120), "count": None if persistent else rng.choice([1, 1, 2]),
                 "err": rng.choice(self.PERSISTENT if persistent else self.TRANSIENT)}
 
     def impl_(self, case: dict) -> Any:
